@@ -60,6 +60,7 @@ type Run struct {
 	Seed       int64
 	Only       string
 	Verbose    bool
+	Quiet      bool // count violations but do not print / write replay files (first, parallel pass)
 	start      time.Time
 
 	mu         sync.Mutex
@@ -171,7 +172,9 @@ func (r *Run) Inconclusive(why string) {
 	r.mu.Lock()
 	r.inconcl = append(r.inconcl, why)
 	r.mu.Unlock()
-	fmt.Printf("INCONCLUSIVE property=%s %s\n", r.Prop, why)
+	if !r.Quiet {
+		fmt.Printf("INCONCLUSIVE property=%s %s\n", r.Prop, why)
+	}
 }
 
 // Violate reports a refuting observation.  class groups witnesses (one replay file and one
@@ -191,7 +194,7 @@ func (r *Run) Violate(class, sig string, detail map[string]any) {
 	}
 	r.violations++
 	r.classes[class]++
-	if r.classes[class] > 1 {
+	if r.classes[class] > 1 || r.Quiet {
 		return
 	}
 	if r.printed >= 40 {
